@@ -82,4 +82,45 @@ def pyDictAttrUpdateC20b (cp self : PVal) : PyM PVal :=
   | .obj c fs, .obj _ gs => pure (.obj c (gs.foldl (fun acc kv => fieldSet kv.1 kv.2 acc) fs))
   | _, _ => throw .unsupported
 
+/-! ### the walk and its visitor -/
+
+/-- the iterable handed to `enumerate` by the walk (`x.children`): `unsupported` for a `jsx` string, which the base `pyIter`
+    does not know (it is iterable, character by character); every other value as it is -/
+def pyNotJsxC20b (x : PVal) : PyM PVal :=
+  match x with
+  | .obj cls _ => if cls == "jsx" then throw .unsupported else pure x
+  | _ => pure x
+
+/-- `d[k] = v` through `JSXTagAttrDict.__setitem__` while `d` is being iterated over (`for key, value in x.attrs.items():
+    x.attrs[key] = …`): `new` is the dict afterwards.  When the keys are what they were, the iteration goes on as over a
+    snapshot; when the assignment added a key (the name `key` normalises to another name), CPython raises RuntimeError at
+    the next step of the iteration — or not at all, if it was the last item —: outside the fragment. -/
+def pySameKeysC20b (old new : PVal) : PyM PVal :=
+  match old, new with
+  | .dict a, .dict b => if a.map (·.1) == b.map (·.1) then pure new else throw .unsupported
+  | _, _ => throw .unsupported
+
+/-- an attribute value as a `TagAttrDict` stores it: a `str` or an `HTML` -/
+def isStoredAttrC20b : PVal → Bool
+  | .str _ => true
+  | .html _ => true
+  | _ => false
+
+/-- `copy.copy(x)` for everything but a JSXTag (which goes to the translated `JSXTag.__copy__`).  A value has no identity, so
+    the copy is the value (`pyCopyC20b`), provided copying does not *change* it: `Tag.__copy__` copies every attribute, and
+    `copy.copy` of its `attrs` (a TagAttrDict, a `dict` subclass) sets every item again through `TagAttrDict.__setitem__`,
+    which normalises name and value — the identity on a name without `_` and a `str` / `HTML` value (what a TagAttrDict
+    holds unless it was filled behind its back); any other Tag is outside the fragment. -/
+def pyCopyObjC20b (x : PVal) : PyM PVal :=
+  match x with
+  | .obj cls fs =>
+    if cls == "JSXTag" then throw .unsupported
+    else if isInstance x ["Tag"] then
+      match fieldGet? "attrs" fs with
+      | some (.dict kvs) =>
+        if kvs.all (fun kv => !kv.1.contains '_' && isStoredAttrC20b kv.2) then pyCopy x else throw .unsupported
+      | _ => throw .unsupported
+    else pyCopy x
+  | _ => pyCopyC20b x
+
 end HtmlVerif.Py
